@@ -240,3 +240,63 @@ class PurePython:
         for n, f in self.saved.items():
             setattr(self.nk, n, f)
         return False
+
+
+# ---------------------------------------------------------------------------------------------------------
+# potential operators through the real pipeline (DensePotentialAssembler -> numba potential assembler body)
+# ---------------------------------------------------------------------------------------------------------
+def dof_transformation_dump(space):
+    m = space.dof_transformation.tocoo()
+    return [[int(r), int(c), fr(v)] for r, c, v in zip(m.row, m.col, m.data)]
+
+
+def make_space(api, grid, spec):
+    """spec = (kind, degree, kwargs)"""
+    return api.function_space(grid, spec[0], spec[1], **spec[2])
+
+
+def potential_case(api, rng, mname, spec, family, k, points, ncoef=2, name=None):
+    """Evaluate a potential operator with a surrogate kernel on the Python body of the potential assembler.
+
+    family: 'scalar' (default_scalar_potential_kernel via the Laplace/Helmholtz single-layer factories),
+            'efield' / 'mfield' (Maxwell potentials)."""
+    from bempp_cl.api.integration.triangle_gauss import rule
+    P = api.operators.potential
+    grid = make_grid(mname)
+    space = make_space(api, grid, spec)
+    is_complex = k is not None
+    surr = random_surr(rng, is_complex, use_normals=(family == "scalar"))
+    if family == "scalar":
+        surr["N"] = [[0.0] * 3] * 3          # the potential kernel receives a zero dummy test normal
+        surr["r"] = [0.0] * 3
+    nd = space.global_dof_count
+    coefs = []
+    for _ in range(ncoef):
+        c = rng.integers(-4, 5, size=nd) / 4.0
+        if is_complex:
+            c = c + 1j * rng.integers(-4, 5, size=nd) / 4.0
+        coefs.append(c)
+    pts = np.array(points, dtype=np.float64).T
+    with PurePython(surr, is_complex):
+        if family == "scalar":
+            op = P.laplace.double_layer(space, pts) if k is None else P.helmholtz.double_layer(space, pts, k)
+        elif family == "efield":
+            op = P.maxwell.electric_field(space, pts, k)
+        else:
+            op = P.maxwell.magnetic_field(space, pts, k)
+        vals = [np.asarray(op.evaluate(api.GridFunction(space, coefficients=c))) for c in coefs]
+    qp, qw = rule(api.GLOBAL_PARAMETERS.quadrature.regular)
+    loc = space.localised_space
+    allv = np.concatenate([v.reshape(-1) for v in vals])
+    return {"name": name or "%s/%s%d%s/%s" % (mname, spec[0], spec[1], "seg" if spec[2] else "", family),
+            "family": family, "mesh": mname, "k": None if k is None else frc(k),
+            "grid": grid_dump(space.grid), "space": space_dump(space),
+            "supp": [int(x) for x in loc.support_elements], "nmult": [fr(x) for x in loc.normal_multipliers],
+            "dt": dof_transformation_dump(space), "requires_dt": bool(space.requires_dof_transformation),
+            "quad": quad_dump(qp, qw), "surr": surr_dump(surr),
+            "points": [[fr(x) for x in p] for p in points],
+            "coefs": [[frc(x) for x in c] for c in coefs],
+            "dim": int(vals[0].shape[0]),
+            # impl values in the order: coefficient vector, point, component
+            "impl": [frc(v[d, p]) for v in vals for p in range(len(points)) for d in range(v.shape[0])],
+            "scale": fr(float(np.max(np.abs(allv)))), "nonzero": int(np.count_nonzero(allv))}
